@@ -100,6 +100,11 @@ def last_lines(s, n=3):
     return ' / '.join(ls[-n:])[:300]
 
 
+def all_theorems(mod):
+    lms = getattr(mod, 'LEAN_MODULES', None) or ([mod.LEAN_MODULE] if hasattr(mod, 'LEAN_MODULE') else [])
+    return [t for m_ in lms for t in vlib.theorems_in(m_)]
+
+
 def known_match(pid, v, known):
     for k in known:
         if k.get('status', 'open') != 'open':
@@ -141,10 +146,11 @@ def main(argv):
             if tb.get('property') in (pid, '*'):
                 ctx.proof_break('generated table problem: %s' % tb.get('what'))
         # 2. proofs against the regenerated model + driver
-        lm = mod.LEAN_MODULE
-        rc, out, lt = vlib.lake_build([lm, 'beebdrv'])
+        lms = getattr(mod, 'LEAN_MODULES', None) or [mod.LEAN_MODULE]
+        lm = ' '.join(lms)
+        rc, out, lt = vlib.lake_build(lms + ['beebdrv'])
         checker_cmds.append('cd lean && lake build %s beebdrv' % lm)
-        ths = vlib.theorems_in(lm)
+        ths = [t for m_ in lms for t in vlib.theorems_in(m_)]
         obligations = len(ths)
         if rc != 0:
             bad = [l for l in out.split('\n') if 'error' in l][:8]
@@ -154,21 +160,27 @@ def main(argv):
             if rc2 != 0:
                 ctx.proof_break('model driver does not build', out2)
         else:
-            ok, axioms, raw = vlib.audit_axioms(lm)
-            checker_cmds.append('cd lean && lake env lean Audit/%s.lean   # #print axioms of every theorem' % lm.split('.')[-1])
+            ok, axioms, raw = True, {}, ''
+            for m_ in lms:
+                ok1, ax1, raw1 = vlib.audit_axioms(m_)
+                ok = ok and ok1
+                axioms.update(ax1)
+                raw += raw1
+                checker_cmds.append('cd lean && lake env lean Audit/%s.lean   # #print axioms of every theorem' % m_.split('.')[-1])
             discharged = sum(1 for t in ths if t in axioms and set(axioms[t]) <= vlib.ALLOWED_AXIOMS)
             if not ok:
                 ctx.proof_break('axiom audit failed for %s' % lm, raw)
-            hits = vlib.forbidden_scan(lm)
+            hits = [h for m_ in lms for h in vlib.forbidden_scan(m_)]
             checker_cmds.append("grep sorry|admit|axiom|native_decide|bv_decide|implemented_by|unsafe|maxHeartbeats 0 over the import cone (comments stripped)")
             if hits:
                 ctx.proof_break('forbidden construct in proof cone: %s' % ', '.join(hits[:5]))
                 discharged = 0
             if tier == 'thorough':
-                ok, out = vlib.leanchecker(lm)
-                checker_cmds.append('cd lean && lake env leanchecker %s' % lm)
-                if not ok:
-                    ctx.proof_break('leanchecker rejected %s' % lm, out)
+                for m_ in lms:
+                    ok, out = vlib.leanchecker(m_)
+                    checker_cmds.append('cd lean && lake env leanchecker %s' % m_)
+                    if not ok:
+                        ctx.proof_break('leanchecker rejected %s' % m_, out)
         # 3. correspondence and property oracle on the real code
         if a.replay:
             mod.replay(ctx, json.load(open(a.replay)))
@@ -214,7 +226,7 @@ def main(argv):
         with open(path, 'w') as f:
             json.dump({'property': pid, 'kind': 'proof-or-correspondence-broken',
                        'proof_breaks': ctx.proof_breaks, 'correspondence_disagreements': ctx.disagreements[:10],
-                       'theorems': vlib.theorems_in(mod.LEAN_MODULE) if hasattr(mod, 'LEAN_MODULE') else [],
+                       'theorems': all_theorems(mod),
                        'seed': seed, 'tier': tier}, f, indent=1, default=repr)
         for b in ctx.proof_breaks[:5]:
             print('  proof/tie break: %s' % b['what'][:800], file=sys.stderr)
@@ -238,7 +250,7 @@ def main(argv):
             'trusted_base': ['Lean 4.33.0 kernel', 'axioms used by the property theorems: %s' % (', '.join(all_ax) or 'none')] +
                             ['translator tools/translate (clang-14 JSON AST -> Lean leaves, tables)',
                              'correspondence harness + generators (tools/, harness/)'] + ctx.trusted,
-            'theorems': {t: axioms.get(t) for t in (vlib.theorems_in(mod.LEAN_MODULE) if hasattr(mod, 'LEAN_MODULE') else [])},
+            'theorems': {t: axioms.get(t) for t in all_theorems(mod)},
             'translator': {'translated': trep.get('translated', []), 'skipped': trep.get('skipped', []), 'tables': trep.get('tables', {})},
             'evaluations': max(ctx.evaluations, 1),
             'distinct_nontrivial': len(ctx.nontrivial),
